@@ -515,19 +515,36 @@ func ruleTVer(c *Ctx) {
 	}
 	// validator
 	if fn := c.P.Func("bscript", "", "validA58"); fn != nil {
+		// the version bytes for which a "valid" verdict is reachable: every success path's tests of the version
+		// byte folded on all 256 values (its other tests - the checksum - are left open)
 		at := map[int64]bool{}
-		for _, b := range fn.Blocks {
-			for _, ins := range b.Instrs {
-				if bo, ok := ins.(*ssa.BinOp); ok && (bo.Op == token.NEQ || bo.Op == token.EQL) {
-					if k, ok := bo.Y.(*ssa.Const); ok {
-						if v, ok := constValInt(k.Value); ok && isIntType(bo.X.Type()) {
-							at[v.Int64()] = true
+		decided := false
+		if paths, err := feasiblePaths(fn, 4096); err == nil {
+			base, bt := pickBase(condBaseTerms(paths), "[0]")
+			if bt != nil {
+				decided = true
+				for v := int64(0); v < 256; v++ {
+					asg := map[string]*big.Int{base: big.NewInt(v)}
+					for _, p := range paths {
+						if p.EndKind != "return" || p.Ret == nil || len(p.Ret.Results) != 2 {
+							continue
+						}
+						rt := p.Env.Term(p.Ret.Results[0])
+						if !(rt.K == "const" && rt.C != nil && rt.C.Kind() == constant.Bool && constant.BoolVal(rt.C)) {
+							continue
+						}
+						if ok, _ := pathHolds(p, asg); ok {
+							at[v] = true
 						}
 					}
 				}
 			}
 		}
-		c.Check(setStr(at) == want, "T-ver", "validator", fn.Pos(), "validator accepts version bytes "+setStr(at), "validator compares the version byte with "+setStr(at)+", expected "+want)
+		if !decided {
+			c.Undecided("T-ver", "validator", fn.Pos(), "no decision on the version byte found on validA58's paths")
+		} else {
+			c.Check(setStr(at) == want, "T-ver", "validator", fn.Pos(), "validator accepts version bytes "+setStr(at), "validator accepts the version bytes "+setStr(at)+", expected "+want)
+		}
 	} else {
 		c.Undecided("T-ver", "validator", token.NoPos, "validA58 not found")
 	}
